@@ -63,6 +63,21 @@ const (
 
 var identKindNames = [...]string{"goast.New()", "goast.WithResolver(guess.New())", "goast.WithResolver(guess.WithMap)", "goast.WithResolver(simple.New)", "goast.WithResolver(gobuild/stub)"}
 
+// truthWithout is the accurate name map minus the paths that are to fail: for the resolvers that can
+// fail by themselves (simple, gobuild over the stub finder) the failure then happens INSIDE dst's
+// resolver, not in a wrapper around it.
+func truthWithout(failPaths map[string]bool) map[string]string {
+	m := gen.Truth()
+	for p := range failPaths {
+		delete(m, p)
+	}
+	return m
+}
+
+func newNameResolver(kind int, failPaths map[string]bool) resolver.RestorerResolver {
+	return faults.NameResolver(kind, truthWithout(failPaths))
+}
+
 func newIdentResolver(kind int, failPaths map[string]bool) resolver.DecoratorResolver {
 	wrap := func(r resolver.RestorerResolver) resolver.RestorerResolver {
 		if len(failPaths) == 0 {
@@ -80,9 +95,9 @@ func newIdentResolver(kind int, failPaths map[string]bool) resolver.DecoratorRes
 	case identGoastMap:
 		return goast.WithResolver(wrap(faults.NameResolver(faults.KindGuessMap, gen.Truth())))
 	case identGoastSimple:
-		return goast.WithResolver(wrap(faults.NameResolver(faults.KindSimple, gen.Truth())))
+		return goast.WithResolver(faults.NameResolver(faults.KindSimple, truthWithout(failPaths)))
 	default:
-		return goast.WithResolver(wrap(faults.NameResolver(faults.KindGobuild, gen.Truth())))
+		return goast.WithResolver(faults.NameResolver(faults.KindGobuild, truthWithout(failPaths)))
 	}
 }
 
@@ -105,7 +120,8 @@ const (
 	pipePlain = iota
 	pipeManagedDecorate
 	pipeManagedParse
-	pipeSave // a decorator.Package whose FileSet is shared with the other workers' packages (as the packages of one decorator.Load share theirs), saved to a private disk
+	pipeParseShared // plain ParseFile + Fprint of a possibly corrupted source into the FileSet all workers share
+	pipeSave        // a decorator.Package whose FileSet is shared with the other workers' packages (as the packages of one decorator.Load share theirs), saved to a private disk
 	numPipeKinds
 )
 
@@ -144,10 +160,11 @@ func init() {
 }
 
 type workload struct {
-	workers   [][]pipeSpec
-	identKind int
-	nameKind  int
-	failPaths map[string]bool
+	workers       [][]pipeSpec
+	identKind     int
+	nameKind      int
+	failPaths     map[string]bool // paths the shared identifier resolver's name resolver cannot name
+	nameFailPaths map[string]bool // paths the shared restore-side name resolver cannot name
 }
 
 // opResult is what one operation returned, in comparable form.
@@ -246,6 +263,29 @@ func execOnce(p pipeSpec, e env, y func(string), out *[]opResult, shared *parsed
 		*out = append(*out, opResult{Op: "print", Out: buf.String(), Err: errClass(err)})
 		return
 	}
+	if p.kind == pipeParseShared {
+		yield("op:parse-shared")
+		fset := e.fset
+		if fset == nil {
+			fset = token.NewFileSet()
+		}
+		name := "/sim/w/" + dump.HashString(p.src) + ".go"
+		d := decorator.NewDecorator(fset)
+		f, err := d.ParseFile(name, p.src, 0)
+		r := opResult{Op: "parse-shared", Err: errClass(err)}
+		if f != nil {
+			r.Out = "recorded file name: " + d.Filenames[f] + "\n" + dump.String(f, dump.Options{})
+		}
+		*out = append(*out, r)
+		if f == nil {
+			return
+		}
+		yield("op:print")
+		var buf bytes.Buffer
+		err = decorator.Fprint(&buf, f)
+		*out = append(*out, opResult{Op: "print", Out: buf.String(), Err: errClass(err)})
+		return
+	}
 	if p.kind == pipeSave {
 		yield("op:load")
 		fset := e.fset
@@ -331,7 +371,7 @@ func execOnce(p pipeSpec, e env, y func(string), out *[]opResult, shared *parsed
 	*out = append(*out, opResult{Op: "redecorate", Out: dump.String(f2, dump.Options{})})
 }
 
-func drawPipe(run *core.Run, conflicts bool) pipeSpec {
+func drawPipe(run *core.Run, conflicts bool, noBroken ...bool) pipeSpec {
 	t := run.T
 	p := pipeSpec{kind: t.Draw(numPipeKinds), reps: 1 + t.Draw(2), extras: t.Bool(1, 8)}
 	sp := gen.Source(t, gen.Options{MaxImports: 5, MaxDecls: 3, AllowCgo: true, AllowDot: t.Bool(1, 16), Conflicts: conflicts})
@@ -342,7 +382,19 @@ func drawPipe(run *core.Run, conflicts bool) pipeSpec {
 		b := bigSources[t.Draw(len(bigSources))]
 		p.src, p.big, p.reps, p.kind = b.Src, b.Name, 1, pipePlain
 	}
-	if p.kind != pipePlain && p.big == "" {
+	if p.kind == pipeParseShared && t.Bool(2, 3) && len(noBroken) == 0 {
+		// a stored source hit by a storage fault; one time in three its package clause is destroyed
+		cur := []byte(p.src)
+		if t.Bool(1, 3) {
+			if i := strings.Index(p.src, "package "); i >= 0 {
+				cur = []byte(p.src[:i] + []string{"packag ", "", "package 1", "pakage "}[t.Draw(4)] + p.src[i+8:])
+			}
+		} else {
+			cur, _ = faults.Corrupt(t, cur, t.Draw(faults.NumStorageFaults))
+		}
+		p.src = string(cur)
+	}
+	if p.kind != pipePlain && p.kind != pipeParseShared && p.big == "" {
 		p.script = edits.Script(t, 3, conflicts)
 		if t.Bool(1, 3) {
 			p.alias = map[string]string{}
@@ -458,7 +510,7 @@ type concResult struct {
 func concurrentPhase(run *core.Run, w *workload, cfg sched.Config, fine bool, opOnly ...bool) concResult {
 	boundaryOnly := len(opOnly) > 0 && opOnly[0]
 	nworkers := len(w.workers)
-	shared := env{ident: newIdentResolver(w.identKind, w.failPaths), name: faults.NameResolver(w.nameKind, gen.Truth()), fset: token.NewFileSet()}
+	shared := env{ident: newIdentResolver(w.identKind, w.failPaths), name: newNameResolver(w.nameKind, w.nameFailPaths), fset: token.NewFileSet()}
 	s := theSched
 	s.Reset(cfg)
 	ws := make([]*wstate, nworkers)
@@ -532,6 +584,11 @@ func runScheduled(run *core.Run) {
 	if w.identKind != identGoastNew && t.Bool(1, 6) {
 		w.failPaths = map[string]bool{gen.Pool[t.Draw(len(gen.Pool))].Path: true}
 	}
+	if (w.nameKind == faults.KindSimple || w.nameKind == faults.KindGobuild) && t.Bool(1, 5) {
+		// a package the shared restore-side resolver cannot name: whoever asks first gets the error,
+		// and so must everybody who asks later
+		w.nameFailPaths = map[string]bool{gen.Pool[t.Draw(len(gen.Pool))].Path: true}
+	}
 	sameSrc := t.Bool(1, 4) // equal inputs across workers
 	var first pipeSpec
 	for i := 0; i < nworkers; i++ {
@@ -554,7 +611,7 @@ func runScheduled(run *core.Run) {
 			var alias map[string]string
 			var extras, have bool
 			for j := range ps {
-				if ps[j].kind == pipePlain || ps[j].kind == pipeSave {
+				if ps[j].kind == pipePlain || ps[j].kind == pipeSave || ps[j].kind == pipeParseShared {
 					continue
 				}
 				if !have {
@@ -565,7 +622,7 @@ func runScheduled(run *core.Run) {
 		}
 		w.workers = append(w.workers, ps)
 	}
-	run.Describe("scheduled: %d workers, shared ident resolver %s, shared name resolver %s, failing paths %v, equal sources=%v", nworkers, identKindNames[w.identKind], faults.KindName(w.nameKind), keys(w.failPaths), sameSrc)
+	run.Describe("scheduled: %d workers, shared ident resolver %s, shared name resolver %s, failing paths %v / %v, equal sources=%v", nworkers, identKindNames[w.identKind], faults.KindName(w.nameKind), keys(w.failPaths), keys(w.nameFailPaths), sameSrc)
 	for i, ps := range w.workers {
 		for j, p := range ps {
 			run.Describe("worker %d pipe %d kind=%d reps=%d extras=%v split=%v sameAst=%v reuseFR=%v big=%q edits=%v alias=%v src=%d bytes hash %s", i, j, p.kind, p.reps, p.extras, p.split, p.sameAst, p.reuseFR, p.big, p.script, p.alias, len(p.src), dump.HashString(p.src))
@@ -705,7 +762,7 @@ func runScheduled(run *core.Run) {
 	// on) any lazily initialised state, package-level or inside the shared instances.
 	ref := make([][]opResult, nworkers)
 	for i, ps := range w.workers {
-		e := env{ident: newIdentResolver(w.identKind, w.failPaths), name: faults.NameResolver(w.nameKind, gen.Truth())}
+		e := env{ident: newIdentResolver(w.identKind, w.failPaths), name: newNameResolver(w.nameKind, w.nameFailPaths)}
 		if pi := core.Catch(func() {
 			for j, p := range ps {
 				execPipe(j, p, e, nil, &ref[i])
@@ -809,8 +866,8 @@ func runRepeat(run *core.Run) {
 		R = 32
 	}
 	conflicts := true
-	p := drawPipe(run, conflicts)
-	if p.kind == pipePlain || p.kind == pipeSave {
+	p := drawPipe(run, conflicts, true)
+	if p.kind == pipePlain || p.kind == pipeSave || p.kind == pipeParseShared {
 		p.kind = pipeManagedDecorate
 		p.script = edits.Script(t, 3, true)
 	}
